@@ -201,7 +201,7 @@ def r7_cursor_loops(text):
     for c in XS {  (XS a plain identifier path)  ->  cursor while-loop."""
     cnt = 0
 
-    def mk(ind, idx, var, xs, mutk, deref_pat=None, cursor=None):
+    def mk(ind, idx, var, xs, mutk, deref_pat=None, cursor=None, bound=None):
         nonlocal cnt
         cnt += 1
         cur = cursor or f'{var}_nx'
@@ -212,7 +212,7 @@ def r7_cursor_loops(text):
         snap = f'let ghost {var}_all = {xs}@;\n{ind}    ' if mutk == 'iter_mut' else ''
         # ... and one taken at loop entry (`<var>_entry`): loop clauses are written relative to it, not to the function entry
         entry = f'{ind}let ghost {var}_entry = {xs}@;\n' if mutk == 'iter_mut' else ''
-        return (f'{entry}{ind}let mut {cur}: usize = 0;\n{ind}while {cur} < {xs}.len()\n{ind}    /*@LOOPSPEC*/\n{ind}{{\n'
+        return (f'{entry}{ind}let mut {cur}: usize = 0;\n{ind}while {cur} < {bound or (xs + ".len()")}\n{ind}    /*@LOOPSPEC*/\n{ind}{{\n'
                 f'{ind}    let {ix} = {cur}; {cur} += 1;\n{ind}    {snap}{bind}')
 
     def repl_enum(m):
@@ -234,6 +234,11 @@ def r7_cursor_loops(text):
     def repl_copy(m):
         return mk(m.group(1), None, m.group(2), m.group(3), 'iter', deref_pat=True)
     text = re.sub(r'(?m)^(\s*)for &(\w+) in ([\w\.]+)\.iter\(\) \{', repl_copy, text)
+
+    def repl_prefix(m):
+        # for v in XS[..N].iter[_mut]() {  ->  cursor loop over the first N elements (indexing keeps the bounds obligation the slice had)
+        return mk(m.group(1), None, m.group(2), m.group(3), m.group(5), bound='(' + m.group(4).strip() + ')')
+    text = re.sub(r'(?m)^(\s*)for (\w+) in ([\w\.]+)\[\.\.([^\]\n]+)\]\.(iter|iter_mut)\(\) \{', repl_prefix, text)
 
     def repl_plain(m):
         return mk(m.group(1), None, m.group(2), m.group(3), m.group(4))
@@ -350,6 +355,8 @@ def r10_opt_closures(text):
         cl = match_bracket(text, op, '(', ')')
         body = text[m.end():cl].strip()
         recv = re.sub(r'\s+', '', m.group(1))
+        if re.search(r'\b%s: &mut Option<' % re.escape(recv), text):
+            recv = '(*%s)' % recv      # a `&mut Option<T>` parameter: the method call auto-derefs (and copies), the match must say so
         dflt = 'false' if m.group(2) == 'is_some_and' else 'true'
         new = f'(match {recv} {{ Some({m.group(3)}) => {body}, None => {dflt} }})'
         text = text[:m.start()] + new + text[cl + 1:]
